@@ -65,11 +65,19 @@ void ProxySocket::onDownstreamDisconnected()
 void ProxySocket::onUpstreamConnected()
 {
     // Write the status line using the stripped path from the handler
+    // (the path and query string are percent-encoded again)
+    QByteArray rawPath = mDownstreamSocket->rawPath();
+    int fragmentIndex = rawPath.indexOf('#');
+    if (fragmentIndex != -1) {
+        rawPath.truncate(fragmentIndex);
+    }
+    int queryIndex = rawPath.indexOf('?');
+    QByteArray target = "/" + mPath.toUtf8().toPercentEncoding("/");
+    if (queryIndex != -1) {
+        target += "?" + rawPath.mid(queryIndex + 1).toPercentEncoding("/:?[]@!$&'()*+,;=%");
+    }
     mUpstreamSocket.write(
-        QString("%1 /%2 HTTP/1.1\r\n")
-            .arg(methodToString(mDownstreamSocket->method()))
-            .arg(mPath)
-            .toUtf8()
+        methodToString(mDownstreamSocket->method()).toUtf8() + " " + target + " HTTP/1.1\r\n"
     );
 
     // Use the existing headers but insert proxy-related ones
